@@ -348,6 +348,36 @@ def _extras(reg):
     out.append(Entry("x:get_apid", "get_apid_from_raw_space_packet", lambda r: (lambda b: lib_sp().get_apid_from_raw_space_packet(b)),
                      _unit_corpus(sph), prefix=False, steer=True, unit=sph, repro=("sp", "get_apid_from_raw_space_packet({b})")))
 
+    # the stream parser, handed the octet string as one chunk with the ID its first two octets spell registered (so that the
+    # string "begins with a packet"): a truncated or otherwise malformed stream yields a list, never an undocumented exception
+    def bind_parse(r):
+        import collections
+
+        def call(b):
+            sp = lib_sp()
+            raw = (int.from_bytes(bytes(b[:2]), "big") & 0x1FFF) if len(b) >= 2 else 0x0801
+            ids = [sp.PacketId.from_raw(raw), sp.PacketId(sp.PacketType.TM, True, 0x7FF)]
+            return sp.parse_space_packets(collections.deque([bytearray(b)]), ids)
+
+        return call
+
+    def _parse_repro(recipe, lit):
+        return ("import collections\nfrom spacepackets.ccsds.spacepacket import *\nb = " + lit + "\n"
+                "ids = [PacketId.from_raw((int.from_bytes(b[:2], 'big') & 0x1FFF) if len(b) >= 2 else 0x0801), PacketId(PacketType.TM, True, 0x7FF)]\n"
+                "parse_space_packets(collections.deque([bytearray(b)]), ids)")
+
+    out.append(Entry("x:parse_space_packets", "parse_space_packets", bind_parse, _unit_corpus(tm, 6), prefix=False, steer=True, unit=tm, repro=_parse_repro))
+    out.append(Entry("x:parse_space_packets(tc)", "parse_space_packets", bind_parse, _unit_corpus(tc, 6), prefix=False, unit=tc, repro=_parse_repro))
+
+    def twice(unit, n):  # two packets of one ID back to back: every truncation point of the second one follows a complete packet
+        def corpus(tier):
+            return [(r, raw + raw) for r, raw in _unit_corpus(unit, n)(tier)]
+
+        return corpus
+
+    out.append(Entry("x:parse_space_packets(two)", "parse_space_packets", bind_parse, twice(tc, 4), prefix=False, unit=tc, repro=_parse_repro))
+    out.append(Entry("x:parse_space_packets(two tm)", "parse_space_packets", bind_parse, twice(tm, 3), prefix=False, unit=tm, repro=_parse_repro))
+
     def bind_svc(r):
         from spacepackets.ecss.tm import PusTm
 
